@@ -310,6 +310,10 @@ func body(s *simrt.Sim, tier string) {
 	if srcFail >= 0 {
 		src.FailErr = simio.FailureKinds[s.Choose(len(simio.FailureKinds), "srcerrkind")]
 		src.ErrWithData = s.Choose(2, "errwithdata") == 0
+		src.OneShot = s.Choose(3, "oneshot") == 0 // a source that reports its failure once and then carries on
+		if src.OneShot {
+			desc += ", reported once"
+		}
 		desc += fmt.Sprintf(" (error %q)", src.FailErr)
 	}
 	enccommon.Chunking(s, src)
